@@ -157,8 +157,8 @@ CallViol(e) ==
   \cup {V("one_post", subj, ToString(x.posts), ToString(e.posts)) : z \in {1} \cap (IF e.posts = x.posts THEN {} ELSE {1})}
   \cup {V("connections", subj, ToString(x.conns), ToString(e.accepted)) : z \in {1} \cap (IF e.accepted = x.conns THEN {} ELSE {1})}
   \cup {V("method_post", subj, "POST", e.method) : z \in {1} \cap (IF e.posts >= 1 /\ e.method # "POST" THEN {1} ELSE {})}
-  \cup {V("auth_iff_credentials", subj, IF e.creds THEN "correct" ELSE "absent", e.auth) :
-           z \in {1} \cap (IF e.posts >= 1 /\ e.auth # (IF e.creds THEN "correct" ELSE "absent") THEN {1} ELSE {})}
+  \cup {V("auth_iff_credentials", subj \o "/" \o e.creds, IF e.creds # "none" THEN "correct" ELSE "absent", e.auth) :
+           z \in {1} \cap (IF e.posts >= 1 /\ e.auth # (IF e.creds # "none" THEN "correct" ELSE "absent") THEN {1} ELSE {})}
   \cup {V("body_is_serialised_request", subj, "1", "0") : z \in {1} \cap (IF e.posts >= 1 /\ ~e.body_is_ser THEN {1} ELSE {})}
   \cup {V("value_is_reply", subj, "returned envelope = reply", "different") :
            z \in {1} \cap (IF e.result = "ok" /\ e.has_out /\ e.body = "exact" /\ ~e.same_value THEN {1} ELSE {})}
